@@ -325,6 +325,21 @@ func renameAllLocals(src string, names []string) (string, error) {
 	type edit struct{ off int }
 	var edits []int
 	found := 0
+	// identifiers used as keys of composite literals are ambiguous for the parser (field name or variable): a local
+	// that shares its name with such a key is left alone
+	ambiguous := map[*ast.Object]bool{}
+	ast.Inspect(file, func(n ast.Node) bool {
+		if cl, ok := n.(*ast.CompositeLit); ok {
+			for _, e := range cl.Elts {
+				if kv, ok := e.(*ast.KeyValueExpr); ok {
+					if id, ok := kv.Key.(*ast.Ident); ok && id.Obj != nil {
+						ambiguous[id.Obj] = true
+					}
+				}
+			}
+		}
+		return true
+	})
 	for _, d := range file.Decls {
 		fd, ok := d.(*ast.FuncDecl)
 		if !ok || fd.Body == nil || (len(want) > 0 && !want[fd.Name.Name]) {
@@ -333,7 +348,7 @@ func renameAllLocals(src string, names []string) (string, error) {
 		found++
 		ast.Inspect(fd, func(n ast.Node) bool {
 			id, ok := n.(*ast.Ident)
-			if !ok || id.Obj == nil || id.Obj.Kind != ast.Var || id.Name == "_" {
+			if !ok || id.Obj == nil || id.Obj.Kind != ast.Var || id.Name == "_" || ambiguous[id.Obj] {
 				return true
 			}
 			dn, ok := id.Obj.Decl.(ast.Node)
